@@ -2,6 +2,7 @@ package lang
 
 import (
 	"fmt"
+	"sort"
 	"strconv"
 	"strings"
 )
@@ -227,7 +228,8 @@ func (v *Value) prettyStringInteral(rootValues []*Value, quote bool, checkCircul
 		var sb strings.Builder
 		sb.WriteByte('{')
 		index := 0
-		for key, value := range *v.Obj {
+		for _, key := range sortedKeys(*v.Obj) {
+			value := (*v.Obj)[key]
 			if index > 0 {
 				sb.WriteString(", ")
 			}
@@ -242,6 +244,16 @@ func (v *Value) prettyStringInteral(rootValues []*Value, quote bool, checkCircul
 	default:
 		return fmt.Sprintf("<%s>", v.Tag.String())
 	}
+}
+
+// object keys in a deterministic (sorted) order
+func sortedKeys(obj map[string]*Cell) []string {
+	keys := make([]string, 0, len(obj))
+	for k := range obj {
+		keys = append(keys, k)
+	}
+	sort.Strings(keys)
+	return keys
 }
 
 func (v *Value) GetMember(member Value) (*Cell, error) {
